@@ -141,7 +141,7 @@ INFO = {
     "functions": ["lark LALR parse table of mapfile.lark (states/actions/gotos/rules)", "mappyfile.parser.Parser.parse (re-tagging loop)", "mappyfile.parser.SYMBOL_ATTRIBUTES",
                   "mappyfile.transformer.MapfileTransformer.composite/plural", "mappyfile.ordereddict.DefaultOrderedDict.__missing__", "mappyfile.utils.create",
                   "mappyfile.pprint.PrettyPrinter._format", "mappyfile.validator.Validator.validate"],
-    "bounds": {"vocab": "quick: ordered pairs of all short (<= 4 token) slots for 7 object types (symbol, style, class, label, layer, map, scalebar) + long slots of style / layer; thorough: pairs for all 19 types, triples for symbol / style / grid / scaletoken, long slots first / middle / last among context representatives",
+    "bounds": {"vocab": "quick: ordered pairs of all short (<= 4 token) slots for 7 object types (symbol, style, class, label, layer, map, scalebar) + long slots of style / layer; thorough: pairs for all 19 types, triples for symbol / grid, long slots first / middle / last among context representatives for the 7 quick types",
                "bmc": "QF_BV, 12-bit state ids, steps/depth derived from the slots' own concrete runs, unwinding check (no member ends at a bound)",
                "versions": "None, 4.0, 5.4, 6.0, 7.6, 8.0, 8.2"},
     "outside": ["the contextual scanner is run per slot inside a body of the same type; that a slot scans to the same token types next to another slot is "
@@ -174,13 +174,13 @@ def obligations(tier, seed):
                           timeout=1500, expect_cex=True, meta={"desc": f"{t}.{k} (listed known finding) followed by every other short slot", "functions": ["LALR table"]}))
         if quick and t not in quick_short:
             continue
-        obs.append(Ob(name=f"C19-VOCAB/{t}.short", kind="z3", z3_call=("engine.lalr", "vocab_query", {"type_": t, "family": "short", "nseg": 2 if (quick or t not in ("symbol", "style", "grid", "scaletoken")) else 3, "exclude_keys": kf_vocab.get(t, [])}),
+        obs.append(Ob(name=f"C19-VOCAB/{t}.short", kind="z3", z3_call=("engine.lalr", "vocab_query", {"type_": t, "family": "short", "nseg": 2 if (quick or t not in ("symbol", "grid")) else 3, "exclude_keys": kf_vocab.get(t, [])}),
                       timeout=1500 if quick else 5000,
                       meta={"desc": f"{t}: every short keyword slot next to every other ({'pairs' if quick else 'triples'}) is accepted and reduced as attributes of one block",
                             "functions": ["LALR table", "Parser.parse re-tagging"]}))
         fams = ("long0",) if quick else ("long0", "long1", "long2")
         for fam in fams:
-            if quick and t not in quick_long:
+            if t not in (quick_long if quick else quick_short):
                 continue
             obs.append(Ob(name=f"C19-VOCAB/{t}.{fam}", kind="z3", z3_call=("engine.lalr", "vocab_query", {"type_": t, "family": fam, "nseg": 2}),
                           timeout=1500 if quick else 5000,
